@@ -524,11 +524,39 @@ func runFresh(s *scenario) {
 	xs, ys := map[string]bool{}, map[string]bool{}
 	allOK := true
 	var wg sync.WaitGroup
+	// the first handshake message of a few connections is HELD inside its network Write (the writer has handed its bytes to
+	// the connection, they are not on the wire yet) while all the other handshakes of the scenario run: the bytes that go out
+	// in the end must still be this connection's message (connections 1-4: the client's request, 5-8: the server's response)
+	held := 0
+	if s.N >= 24 {
+		held = 8
+	}
+	release := make(chan struct{})
+	parkedCh := make(chan struct{}, 16)
+	var others sync.WaitGroup
 	for i := 0; i < s.N; i++ {
 		wg.Add(1)
 		one := func(i int) {
 			defer wg.Done()
+			isHeld := i >= 1 && i <= held
+			if i > held {
+				defer others.Done()
+			}
 			l := wire.NewLink(true, 1+i%1500) // different segmentations
+			if isHeld {
+				var once sync.Once
+				gate := func(c *wire.Conn, n int) {
+					once.Do(func() {
+						parkedCh <- struct{}{}
+						<-release
+					})
+				}
+				if i <= held/2 {
+					l.A.WriteGate = gate
+				} else {
+					l.B.WriteGate = gate
+				}
+			}
 			var first [2][]byte
 			var fmu sync.Mutex
 			l.Hook = func(c *wire.Conn, what string, data []byte) {
@@ -548,7 +576,29 @@ func runFresh(s *scenario) {
 			sch := make(chan error, 1)
 			var sc net.Conn
 			go func() { c, err := b.SF.WrapConn(l.B); sc = c; sch <- err }()
-			c, err := dialReal(l.A, b.ID.PublicOnly(), i%2 == 1)
+			type dres struct {
+				c   net.Conn
+				err error
+			}
+			dch := make(chan dres, 1)
+			go func() { c, err := dialReal(l.A, b.ID.PublicOnly(), i%2 == 1); dch <- dres{c, err} }()
+			if isHeld {
+				<-release // the clock for this connection runs from the moment its write may proceed
+			}
+			var d dres
+			select {
+			case d = <-dch:
+			case <-time.After(15 * time.Second):
+				// a client that is still waiting for an answer (its peer was sent something it does not accept and stays
+				// silent): end the connection under it
+				l.A.Close()
+				l.B.Close()
+				d = <-dch
+				if d.err == nil {
+					d.err = errors.New("client handshake did not return")
+				}
+			}
+			c, err := d.c, d.err
 			var serr error
 			select {
 			case serr = <-sch:
@@ -582,11 +632,32 @@ func runFresh(s *scenario) {
 			}
 			mu.Unlock()
 		}
+		if i > held {
+			others.Add(1)
+		}
 		if i == 0 {
 			one(i) // the first handshake runs alone (keys must also differ ACROSS connections), the rest concurrently
 		} else {
 			go one(i)
 		}
+		if i == held && held > 0 {
+			// all held writers are inside their Write before anybody else starts
+			for k := 0; k < held; k++ {
+				select {
+				case <-parkedCh:
+				case <-time.After(10 * time.Second):
+				}
+			}
+		}
+	}
+	if held > 0 {
+		od := make(chan struct{})
+		go func() { others.Wait(); close(od) }()
+		select {
+		case <-od:
+		case <-time.After(40 * time.Second):
+		}
+		close(release)
 	}
 	wg.Wait()
 	w.Emit(vt.Ev{"event": "Fresh", "n": s.N, "distinct_x": len(xs) == s.N, "distinct_y": len(ys) == s.N, "all_ok": allOK})
